@@ -31,6 +31,9 @@ INFO = {
     ],
     "assumptions": [
         "Python attribute lookup is modelled as: instance dict, then first class along the MRO; functions found on a class are bound to the instance they are looked up through",
+        "a plain value in a class dict is never re-bound on access (true for data, bound methods, staticmethods; NOT for a plain function "
+        "stored un-wrapped on a class, which is what augment-of-an-augmented-MDP does with a previously overridden component: open defect, "
+        "reported by the harness under C15:augment:of-derived-mdp:overridden-component-unusable, model not compared on those derivations)",
         "random.Random is not modelled: a simulation is a function of the explicit (action, next state) choice stream",
     ],
 }
@@ -1051,10 +1054,13 @@ def run(ctx):
         cases = [ctx.replay_case["detail"]["case"]]
     else:
         k = 1 if tier == "quick" else 8
-        cases = [gen_augment(rng, tier) for _ in range(40 * k)] + [gen_subtask(rng, tier) for _ in range(60 * k)] + \
+        cases = [gen_augment(rng, tier) for _ in range(30 * k)] + [gen_subtask(rng, tier) for _ in range(60 * k)] + \
                 [gen_run(rng, tier) for _ in range(70 * k)] + [gen_smdp(rng, tier) for _ in range(70 * k)] + \
                 [gen_used(rng, tier) for _ in range(50 * k)]
+    import time
+    t0 = time.time()
     impl = ctx.impl("c15_impl.py", {"cases": cases}, shards=8 if tier == "quick" else 16)["results"]
+    t_impl = time.time() - t0
     ck = Checker(ctx)
     terms, owner = [], []
     for i, (case, res) in enumerate(zip(cases, impl)):
@@ -1064,7 +1070,9 @@ def run(ctx):
         ts = terms_for(case, res)
         terms += ts
         owner += [i] * len(ts)
+    t0 = time.time()
     vals = ctx.coq(PRE, terms, shard=25 if tier == "quick" else 60)
+    t_coq = time.time() - t0
     vals = [v if isinstance(v, vlib.CoqError) else unq(v) for v in vals]
     per = {}
     for i, v in zip(owner, vals):
@@ -1118,5 +1126,5 @@ def run(ctx):
                 "components + tabular views + ValueIteration result compared; half of all other bases are touched first too.  distinct = structural hash of the case; non-trivial = all "
                 "(every base has >= 2 states)",
         "samples": [sample] if sample else [{"case": cases[0]}],
-        "cases": len(cases), "cases_by_kind": kinds, "discount_holders": holders, "input_representations": reps, "counters": ck.counts,
+        "cases": len(cases), "timing_s": {"impl": round(t_impl, 1), "coq": round(t_coq, 1)}, "cases_by_kind": kinds, "discount_holders": holders, "input_representations": reps, "counters": ck.counts,
     })
